@@ -30,6 +30,8 @@
 //! Observation: items joined by ` ; `:
 //!   ret <i> ok|msg|again|shutdown|parseip           result of the API call that is command number i
 //!   it <d> <now> <wake|none>                        an iteration of d ran at <now>; wake-up requested afterwards
+//!   rx <d> <if> <v4> <ip:port> <hex>                datagram queued for d (injected, or delivered over a link);
+//!                                                   it is read in d's next iteration
 //!   tx <d> <if> <v4> <m|ip:port> <hex>              packet sent in that iteration
 //!   ev <d> <chan> <event tokens>                    event received on a client channel during that iteration
 //!   closed <d> <chan>                               the channel's sender side is gone
@@ -275,6 +277,14 @@ impl World {
                 };
                 for _ in 0..copies {
                     self.sim.inject(to, to_if, p.v4, SocketAddr::new(src_ip, 5353), &p.bytes);
+                    self.out.push(format!(
+                        "rx {} {} {} {} {}",
+                        to,
+                        to_if,
+                        b(p.v4),
+                        SocketAddr::new(src_ip, 5353),
+                        hex(&p.bytes)
+                    ));
                 }
                 self.pending_rx[to] = true;
             }
@@ -473,6 +483,7 @@ fn run_script(cmds: &[String], dense: u64) -> Option<String> {
                     return None;
                 }
                 w.sim.inject(d, ifi, v4, SocketAddr::new(ip, port), &bytes);
+                w.out.push(format!("rx {} {} {} {} {}", d, ifi, b(v4), SocketAddr::new(ip, port), hex(&bytes)));
                 w.pending_rx[d] = true;
             }
             "quiet" => w.quiet = t.boolean()?,
